@@ -107,6 +107,8 @@ VariantHelp(v, path) ==
        \o (IF v.sub # "" THEN ListLines(v.sub) ELSE <<>>)
 
 UnknownHelp == << << <<0 - 1>> >> >>      \* sentinel: no such (visible) command
+OpenHelp == << << <<0 - 2>> >> >>         \* sentinel: which command is meant is left open (OpenAbandoned:
+                                           \* an option of a parent command named without its value)
 
 RECURSIVE HelpEnum(_, _, _, _)
 RECURSIVE HelpWalk(_, _, _, _, _)
@@ -114,7 +116,8 @@ RECURSIVE HelpWalk(_, _, _, _, _)
 (* skipped (with their values); an option this command does not declare     *)
 (* (such as the help option itself) ends the search                         *)
 HelpWalk(v, path, toks, i, s) ==
-    IF i > Len(toks) \/ s.stop THEN VariantHelp(v, path)
+    IF s.open THEN OpenHelp
+    ELSE IF i > Len(toks) \/ s.stop THEN VariantHelp(v, path)
     ELSE LET t == toks[i] IN
       IF ~s.vo /\ Len(t) > 1 /\ t[1] = DASH THEN
           IF t[2] = DASH THEN
@@ -122,7 +125,7 @@ HelpWalk(v, path, toks, i, s) ==
               ELSE LET hits == {k \in 1..Len(v.args) : v.args[k].kind # "pos" /\ v.args[k].has_long /\ v.args[k].long_cp = SubSeq(t, 3, Len(t))} IN
                    IF hits = {} THEN VariantHelp(v, path)
                    ELSE LET k == CHOOSE k \in hits : \A j \in hits : k <= j IN
-                        HelpWalk(v, path, toks, i + 1, [s EXCEPT !.mode = IF v.args[k].kind = "flag" THEN 0 ELSE k])
+                        HelpWalk(v, path, toks, i + 1, [s EXCEPT !.mode = IF v.args[k].kind = "flag" THEN 0 ELSE k, !.open = s.mode # 0])
           ELSE \* cluster: processed letter by letter
               LET RECURSIVE Cl(_, _)
                   Cl(j, st) ==
@@ -130,7 +133,7 @@ HelpWalk(v, path, toks, i, s) ==
                       ELSE LET hits == {k \in 1..Len(v.args) : v.args[k].kind # "pos" /\ v.args[k].short_cp = t[j]} IN
                            IF hits = {} THEN [st EXCEPT !.stop = TRUE]
                            ELSE LET k == CHOOSE k \in hits : \A q \in hits : k <= q IN
-                                Cl(j + 1, [st EXCEPT !.mode = IF v.args[k].kind = "flag" THEN 0 ELSE k])
+                                Cl(j + 1, [st EXCEPT !.mode = IF v.args[k].kind = "flag" THEN 0 ELSE k, !.open = st.mode # 0])
               IN HelpWalk(v, path, toks, i + 1, Cl(2, s))
       ELSE IF s.mode # 0 THEN HelpWalk(v, path, toks, i + 1, [s EXCEPT !.mode = 0])
       ELSE HelpEnum(v.sub, path \o <<v.name_cp>>, t, SubSeq(toks, i + 1, Len(toks)))
@@ -149,7 +152,7 @@ HelpEnum(id, path, name, toks) ==
          IF hits = {} THEN UnknownHelp
          ELSE LET v == e.variants[CHOOSE i \in hits : \A j \in hits : i <= j] IN
               IF v.sub = "" THEN VariantHelp(v, path)
-              ELSE HelpWalk(v, path, toks, 1, [mode |-> 0, vo |-> FALSE, stop |-> FALSE])
+              ELSE HelpWalk(v, path, toks, 1, [mode |-> 0, vo |-> FALSE, stop |-> FALSE, open |-> FALSE])
 
 -----------------------------------------------------------------------------
 ErrorPrefix == <<101, 114, 114, 111, 114, 58, 32>>          \* "error: "
@@ -193,7 +196,8 @@ HelpOk(r, toks, kind) ==
            want == IF kind = "all" THEN ListLines(r.decl)
                    ELSE IF toks[1] = HelpWord THEN HelpEnum(r.decl, <<>>, toks[2], SubSeq(toks, 3, Len(toks)))
                    ELSE HelpEnum(r.decl, <<>>, toks[1], Tail(toks))
-       IN IF want = UnknownHelp
+       IN IF want = OpenHelp THEN TRUE
+          ELSE IF want = UnknownHelp
           THEN Chk(<<"C12 unknown or hidden command not answered by `error: unknown command`", r.out>>,
                    IsErrorLine(r.out, <<117, 110, 107, 110, 111, 119, 110, 32, 99, 111, 109, 109, 97, 110, 100>>))
           ELSE Chk(<<"C12 help text does not say what the declaration says", got, want>>,
